@@ -571,6 +571,19 @@ func (e *evalCtx) call(t *ast.CallExpr) Val {
 			e.fail("entry(%s): no such parameter", id2.Name)
 		}
 		return v
+	case "at":
+		// at(NAME, e): e in the state remembered by "mark NAME ..."
+		nm, ok := t.Args[0].(*ast.Ident)
+		if !ok || len(t.Args) != 2 {
+			e.fail("at(NAME, expr) expected")
+		}
+		ms := c.marks[nm.Name]
+		if ms == nil {
+			e.fail("at(%s, ...): no such mark has been passed", nm.Name)
+		}
+		n := *e
+		n.st = ms
+		return n.eval(t.Args[1])
 	case "inmap":
 		// inmap(m, k): k is a key of map m
 		m := e.eval(t.Args[0])
